@@ -6,7 +6,9 @@
 //             sched <len> <ints...>
 //     stdout per case:
 //        ref <id> na <na> alpha <hex..> res <hex..> chosen <a> feasible <0|1> x <hex..> H1 <k> <ints> residual <hex>
-//        out <id> ret <0|1> x <hex..> H1 <k> <ints> residual <hex> calcs <n> consumed <n> steps <n> drift <malloc_count> <memory_inuse> trace <tid:K ...>
+//        out <id> ret <0|1> x <hex..> H1 <k> <ints> residual <hex> calcs <n> consumed <n> steps <n> drift <malloc_count> <memory_inuse>
+//             commons <started> <finished> <unbalanced> <shared_by_workers> <workers_on_callers_common> <unknown> trace <tid:K ...>
+//        (commons: which thread calls CHOLMOD with which cholmod_common during walk_descents, observed through ld --wrap, see cw_*)
 //     or  fail <id> <what + thread states | trace>    and the process exits (the caller restarts after it)
 //   C12_harness nnls       stdin: case <id> n <n> m <m> seed <s> corr <c> threads <list..>;  stdout: nnlsbegin/nnlsend <id> <T> n <n> x <hex..>
 //   C12_harness fit        stdin: case <id> dim <1|2> ns <samples/dim> nk <knots/dim> order <o> mono <dim> shape <k> noise <seed> threads <list..>
@@ -34,6 +36,78 @@ static std::string hexf(float f) { uint32_t u; memcpy(&u, &f, 4); char b[12]; sn
 
 static std::string cur_id;
 static void on_fail(const char *msg) { printf("fail %s %s\n", cur_id.c_str(), msg); fflush(stdout); }
+
+// ---- which thread uses which cholmod_common (D15).  The CHOLMOD entry points reachable from walk_descents /
+// evaluate_descent / calc_residual are wrapped at link time (-Wl,--wrap=...); while cw_watch is set every call is
+// attributed to (calling thread, Common).  Model (Handshake.v, shared_common = false): the coordinator starts N commons
+// before the first pthread_create and finishes them after the last join; worker j uses commons[j] only; nobody uses the
+// caller's common.  Commons are registered single-threaded (cholmod_l_start by the coordinator, the caller's common by the
+// harness), so the table is read-only while workers run; the per-entry fields are relaxed atomics (no happens-before edge
+// is added between the threads), except `touch`, which under TSan is a PLAIN counter: libcholmod is not instrumented, so a
+// race on a cholmod_common becomes visible to TSan as a race on this proxy.
+#include <atomic>
+#include <pthread.h>
+struct cw_entry { cholmod_common *key; std::atomic<uintptr_t> owner; long touch; std::atomic<long> touch_a; };
+static cw_entry cw_tab[80];
+static int cw_n;
+static bool cw_watch;
+static pthread_t cw_coord;
+static cholmod_common *cw_callers;
+static std::atomic<long> cw_shared, cw_on_callers, cw_unknown;
+static long cw_started, cw_finished, cw_unbalanced;
+static void cw_begin(cholmod_common *callers)
+{
+	cw_n = 0; cw_shared = 0; cw_on_callers = 0; cw_unknown = 0; cw_started = cw_finished = cw_unbalanced = 0;
+	cw_coord = pthread_self(); cw_callers = callers;
+	cw_tab[cw_n].key = callers; cw_tab[cw_n].owner = 0; cw_tab[cw_n].touch = 0; cw_tab[cw_n].touch_a = 0; cw_n++;
+	cw_watch = true;
+}
+static void cw_touch(cholmod_common *c)
+{
+	if (!cw_watch) return;
+	cw_entry *e = nullptr;
+	for (int i = 0; i < cw_n; i++) if (cw_tab[i].key == c) e = &cw_tab[i];
+	if (!e) { cw_unknown.fetch_add(1, std::memory_order_relaxed); return; }
+#if defined(__SANITIZE_THREAD__)
+	e->touch++;
+#else
+	e->touch_a.fetch_add(1, std::memory_order_relaxed);
+#endif
+	if (pthread_equal(pthread_self(), cw_coord)) return;
+	if (c == cw_callers) cw_on_callers.fetch_add(1, std::memory_order_relaxed);
+	uintptr_t me = (uintptr_t)pthread_self(), none = 0;
+	if (!e->owner.compare_exchange_strong(none, me, std::memory_order_relaxed) && none != me)
+		cw_shared.fetch_add(1, std::memory_order_relaxed);
+}
+extern "C" {
+int __real_cholmod_l_start(cholmod_common *);
+int __real_cholmod_l_finish(cholmod_common *);
+cholmod_dense *__real_cholmod_l_allocate_dense(size_t, size_t, size_t, int, cholmod_common *);
+cholmod_dense *__real_cholmod_l_copy_dense(cholmod_dense *, cholmod_common *);
+int __real_cholmod_l_sdmult(cholmod_sparse *, int, double *, double *, cholmod_dense *, cholmod_dense *, cholmod_common *);
+int __real_cholmod_l_free_dense(cholmod_dense **, cholmod_common *);
+int __wrap_cholmod_l_start(cholmod_common *c)
+{
+	int r = __real_cholmod_l_start(c);
+	if (cw_watch) {
+		if (pthread_equal(pthread_self(), cw_coord) && cw_n < 80) {
+			cw_tab[cw_n].key = c; cw_tab[cw_n].owner = 0; cw_tab[cw_n].touch = 0; cw_tab[cw_n].touch_a = 0; cw_n++; cw_started++;
+		} else cw_unknown.fetch_add(1, std::memory_order_relaxed);       // a common started by a worker, or too many
+	}
+	return r;
+}
+int __wrap_cholmod_l_finish(cholmod_common *c)
+{
+	cw_touch(c);
+	int r = __real_cholmod_l_finish(c);
+	if (cw_watch) { cw_finished++; if (c->malloc_count != 0 || c->memory_inuse != 0) cw_unbalanced++; }
+	return r;
+}
+cholmod_dense *__wrap_cholmod_l_allocate_dense(size_t a, size_t b, size_t d, int t, cholmod_common *c) { cw_touch(c); return __real_cholmod_l_allocate_dense(a, b, d, t, c); }
+cholmod_dense *__wrap_cholmod_l_copy_dense(cholmod_dense *x, cholmod_common *c) { cw_touch(c); return __real_cholmod_l_copy_dense(x, c); }
+int __wrap_cholmod_l_sdmult(cholmod_sparse *A, int tr, double *al, double *be, cholmod_dense *X, cholmod_dense *Y, cholmod_common *c) { cw_touch(c); return __real_cholmod_l_sdmult(A, tr, al, be, X, Y, c); }
+int __wrap_cholmod_l_free_dense(cholmod_dense **x, cholmod_common *c) { cw_touch(c); return __real_cholmod_l_free_dense(x, c); }
+}
 
 static int rcmp(const void *xa, const void *xb) { double a = *(const double *)xa, b = *(const double *)xb; return a < b ? 1 : a > b ? -1 : 0; }
 
@@ -119,7 +193,9 @@ static int run_sched()
 		// CHOLMOD's allocation statistics in the (shared) common: everything walk_descents allocates it also frees,
 		// so both must be back at their values afterwards unless concurrent workers lost an update (D15)
 		size_t mc0 = c.malloc_count, mi0 = c.memory_inuse;
+		cw_begin(&c);
 		int ret = walk_descents(AtA_F, Atb_F, xd, xFd, F.data(), &nFv, H1.data(), &nH1, &residual, &calcs, 0, &c);
+		cw_watch = false;
 		long consumed = forced ? verif_sched_consumed() : 0;
 		static char tbuf[1 << 20]; int steps = 0; tbuf[0] = 0;
 		if (forced) { steps = verif_sched_trace(tbuf, sizeof tbuf); verif_sched_unload(); }
@@ -127,8 +203,9 @@ static int run_sched()
 		for (long k = 0; k < n; k++) printf(" %s", hexd(((double *)xd->x)[k]).c_str());
 		printf(" H1 %ld", nH1);
 		for (long k = 0; k < nH1; k++) printf(" %ld", H1[k]);
-		printf(" residual %s calcs %d consumed %ld steps %d drift %ld %ld trace %s\n", ret ? hexd(residual).c_str() : "-", calcs, consumed, steps,
-		    (long)(c.malloc_count - mc0), (long)(c.memory_inuse - mi0), tbuf);
+		printf(" residual %s calcs %d consumed %ld steps %d drift %ld %ld commons %ld %ld %ld %ld %ld %ld trace %s\n", ret ? hexd(residual).c_str() : "-", calcs, consumed, steps,
+		    (long)(c.malloc_count - mc0), (long)(c.memory_inuse - mi0),
+		    cw_started, cw_finished, cw_unbalanced, cw_shared.load(), cw_on_callers.load(), cw_unknown.load(), tbuf);
 		c.malloc_count = mc0; c.memory_inuse = mi0;
 		fflush(stdout);
 		cholmod_l_free_sparse(&AtA_F, &c); cholmod_l_free_dense(&Atb_F, &c); cholmod_l_free_dense(&xd, &c); cholmod_l_free_dense(&xFd, &c);
